@@ -394,7 +394,7 @@ pub struct SimSource {
 impl SimSource {
     pub fn new(data: Vec<u8>, cfg: &ReaderCfg, log: Rc<RefCell<Log>>) -> (SimSource, Rc<RefCell<SrcCore>>) {
         let n_eintr = cfg.eintr_at.len() as u32;
-        let limit = (2 * data.len() as u32).saturating_add(n_eintr).saturating_add(64);
+        let limit = u32::try_from(2 * data.len() as u64).unwrap_or(u32::MAX).saturating_add(n_eintr).saturating_add(64);
         let eintr_at_eof = cfg.eintr_at_eof.min(MAX_CONSECUTIVE_EINTR);
         let hi = data.len();
         let core = Rc::new(RefCell::new(SrcCore {
@@ -569,6 +569,7 @@ pub struct SinkCore {
     consecutive_eintr: u8,
     err_fired: bool,
     limit: u32,
+    max_bytes: usize,
     log: Rc<RefCell<Log>>,
 }
 
@@ -579,7 +580,9 @@ pub struct SimSink {
 impl SimSink {
     pub fn new(cfg: &WriterCfg, expected_len: usize, log: Rc<RefCell<Log>>) -> (SimSink, Rc<RefCell<SinkCore>>) {
         let n_eintr = (cfg.eintr_at.len() + cfg.flush_eintr_at.len()) as u32;
-        let limit = (4 * expected_len as u32).saturating_add(n_eintr).saturating_add(256);
+        let limit = u32::try_from(4 * expected_len as u64).unwrap_or(u32::MAX).saturating_add(n_eintr).saturating_add(256);
+        // an encoder that emits far more than the image can account for is running away
+        let max_bytes = 8 * expected_len + (1 << 20);
         let core = Rc::new(RefCell::new(SinkCore {
             disk: Vec::new(),
             pending: Vec::new(),
@@ -594,6 +597,7 @@ impl SimSink {
             consecutive_eintr: 0,
             err_fired: false,
             limit,
+            max_bytes,
             log,
         }));
         (SimSink { core: core.clone() }, core)
@@ -608,7 +612,7 @@ impl Write for SimSink {
         let log = c.log.clone();
         let mut log = log.borrow_mut();
         log.ledger.bump(K::write_calls);
-        if call >= c.limit {
+        if call >= c.limit || c.disk.len() + c.pending.len() + buf.len() > c.max_bytes {
             log.event('W', call, buf.len(), "step_limit", 0);
             drop(log);
             std::panic::panic_any(StepLimit { seam: 'W', calls: call });
